@@ -110,6 +110,18 @@ def install_common(E, st, Qn):
     Bn['__truth__'] = lambda E_, v: (z3.Not(st['inputs_empty']) if isinstance(v, Obj) and v.cls == 'InputSet' else None)
 
 
+def install_any(E, st):
+    """any()/all() of the set of buffered arguments: about the ARGUMENTS' truthiness, not about emptiness (a set
+    holding only 0, None, '' is not empty)"""
+    def _any(E_, a, k):
+        if a and isinstance(a[0], Obj) and a[0].cls == 'InputSet':
+            r = E.fresh('some_argument_is_truthy', B)
+            E.assume(z3.Implies(r, z3.Not(st['inputs_empty'])))
+            return VBool(r)
+        raise Unsupported('any(%r)' % (a,))
+    E.builtins['any'] = VStub('any', _any)
+
+
 def cancel_may_arrive(E):
     """at a suspension the task may be asked to cancel (loop shutdown): once requested it stays requested"""
     old = E.w['cancel_req']
@@ -144,6 +156,7 @@ def t_run_func(E):
         st.clear()
         o = mk_self(E, st)
         install_common(E, st, Qn)
+        install_any(E, st)
         inputs = Obj('InputSet')
         st['inputs_empty'] = E.fresh('inputs_empty', B)
         pre_set = E.w['in_set']
